@@ -159,7 +159,7 @@ func jobsFor(prop, tier string) []Job {
 		u := pick(3, 4)
 		add("setalg", fmt.Sprintf("hashset.u%d", u), 1, map[string]string{"c": "hashset"}, map[string]int{"u": u})
 		add("setalg", fmt.Sprintf("linkedhashset.u%d", u), 9, map[string]string{"c": "linkedhashset"}, map[string]int{"u": u})
-		for _, c := range []string{"nat", "rev", "coarse"} {
+		for _, c := range []string{"nat", "rev", "coarse", "ext", "big"} { // ext, big: results whose negation / product overflows
 			uu := u + 1
 			if c == "coarse" {
 				uu = u + 2
@@ -556,18 +556,19 @@ func bidiJobs(prop string, q bool, add func(kind, id string, w int, s map[string
 	}
 	add("kvfamily", fmt.Sprintf("treebidimap.family.u%d", fu), fu*fu, map[string]string{"c": "treebidimap"}, map[string]int{"u": fu})
 	add("kvfamily", fmt.Sprintf("hashbidimap.family.u%d", fu), fu, map[string]string{"c": "hashbidimap"}, map[string]int{"u": fu})
+	cu := 72 // above 64: a structure that re-organises itself after shrinking from a peak needs a peak
+	if !q {
+		cu = 136
+	}
 	for _, c := range []string{"nat", "rev"} {
-		cu := 48
-		if !q {
-			cu = 96
-		}
 		add("churn", fmt.Sprintf("treebidimap.%s.churn.u%d", c, cu), cu*4, map[string]string{"c": "treebidimap", "cmp": c, "vcmp": c}, map[string]int{"u": cu})
 	}
+	add("churn", fmt.Sprintf("hashbidimap.churn.u%d", cu), cu*4, map[string]string{"c": "hashbidimap"}, map[string]int{"u": cu})
 	for _, kc := range []string{"nat", "rev", "coarse"} {
 		for _, vc := range []string{"nat", "rev", "coarse"} {
 			uu := u
 			if kc == "coarse" || vc == "coarse" {
-				uu = u + 1 // coarse classes {1},{2,3},{4}: keep at least three classes
+				uu = u + 2 // coarse classes {0,1},{2,3},{4}: three classes (a node with two children) need five values
 			}
 			add("kv", fmt.Sprintf("treebidimap.%s.%s.u%d", kc, vc, uu), uu, map[string]string{"c": "treebidimap", "cmp": kc, "vcmp": vc}, map[string]int{"u": uu})
 		}
